@@ -327,7 +327,7 @@ func (g *queryGen) groupKeys(ms *metricSpec, wantMany bool) []string {
 func (g *queryGen) gen(id int, kind string) *query {
 	ds := g.ds
 	ms := &ds.Metrics[0]
-	if kind != "topn" && kind != "limit" && kind != "auto-interval" && g.rnd.Intn(3) == 0 {
+	if kind != "topn" && kind != "limit" && kind != "auto-interval" && kind != "multi-agg" && g.rnd.Intn(3) == 0 {
 		ms = &ds.Metrics[g.rnd.Intn(len(ds.Metrics))]
 	}
 	fs := g.fieldsOf(ms)
@@ -353,6 +353,74 @@ func (g *queryGen) gen(id int, kind string) *query {
 			out.ErrWanted = "tag key"
 		}
 		g.timeRange(q, kind)
+	case "multi-agg":
+		// one field read with two or more DIFFERENT aggregate types (sum/min/max, plus last/first for such fields): the merged
+		// field series then carries several primitive series on the wire (leaf -> root, leaf -> intermediate -> root); the
+		// series of the data set are sparse and live in different slots on different shards
+		var cand []fieldSpec
+		for _, f := range fs {
+			if f.Type == node.Sum || f.Type == node.Last || f.Type == node.First {
+				cand = append(cand, f)
+			}
+		}
+		if len(cand) == 0 {
+			return nil
+		}
+		f := cand[g.rnd.Intn(len(cand))]
+		fns := []string{"sum", "min", "max"}
+		switch f.Type {
+		case node.Last:
+			fns = append(fns, "last")
+		case node.First:
+			fns = append(fns, "first")
+		}
+		g.rnd.Shuffle(len(fns), func(a, b int) { fns[a], fns[b] = fns[b], fns[a] })
+		n := 2 + g.rnd.Intn(2)
+		ref := func(fn string) node.Expr { return node.Call{Func: fn, Arg: node.FieldRef{Name: f.Name}} }
+		keys := map[string]bool{}
+		add := func(it node.SelectItem) {
+			if !keys[it.Key()] {
+				keys[it.Key()] = true
+				q.Items = append(q.Items, it)
+			}
+		}
+		for i := 0; i < n; i++ {
+			switch g.rnd.Intn(4) {
+			case 0:
+				add(node.SelectItem{Expr: node.FieldRef{Name: f.Name}}) // the type's own aggregate
+			case 1:
+				add(node.SelectItem{Expr: ref(fns[i%len(fns)])})
+			case 2:
+				add(node.SelectItem{Expr: ref(fns[i%len(fns)]), Alias: g.alias()})
+			default:
+				ops := []byte{'-', '+', '*'}
+				add(node.SelectItem{Expr: node.Binary{Op: ops[g.rnd.Intn(3)], L: ref(fns[i%len(fns)]), R: ref(fns[(i+1)%len(fns)])}, Alias: g.alias()})
+			}
+		}
+		// make sure two different aggregate types of the field are read
+		add(node.SelectItem{Expr: ref(fns[0])})
+		add(node.SelectItem{Expr: ref(fns[1]), Alias: g.alias()})
+		if g.rnd.Intn(3) == 0 {
+			used[f.Name] = "x" // other items leave this field alone
+			var others []fieldSpec
+			for _, o := range fs {
+				if o.Name != f.Name {
+					others = append(others, o)
+				}
+			}
+			if len(others) > 0 {
+				add(g.item(ms, others, used))
+			}
+		}
+		g.rnd.Shuffle(len(q.Items), func(a, b int) { q.Items[a], q.Items[b] = q.Items[b], q.Items[a] })
+		g.timeRange(q, kind)
+		g.interval(q)
+		if g.rnd.Intn(4) == 0 {
+			q.Cond = g.cond(ms)
+		}
+		if g.rnd.Intn(2) == 0 {
+			q.GroupBy = g.groupKeys(ms, false)
+		}
 	case "all-fields":
 		out.AllFields = true
 		for _, f := range fs {
@@ -463,8 +531,9 @@ func genQueries(seed int64, ds *dataSet, m *node.Model, tier string) []*query {
 	if ds.Index%2 == 0 {
 		kinds = append(kinds, "auto-interval")
 	}
+	kinds = append(kinds, "multi-agg", "multi-agg")
 	if tier == "thorough" {
-		kinds = append(kinds, "plain", "grouped", "grouped", "topn", "limit", "grouped")
+		kinds = append(kinds, "multi-agg", "plain", "grouped", "grouped", "topn", "limit", "grouped")
 	}
 	var out []*query
 	for _, k := range kinds {
